@@ -99,6 +99,24 @@ pub fn history_overflow(p: &Program) -> bool {
 // C01: every interleaving outcome is explored
 // ------------------------------------------------------------------------------------------
 
+/// Attribution of a missing outcome (for the known-findings list): is it also missing from the
+/// reference in which a thread yields after its spurious `Notify::wait` return (defect D20)?
+fn d20_attribution(p: &Program, o: &Outcome, restricted: &mut Option<scm::ScResult>) -> &'static str {
+    if !p.threads.iter().flatten().any(|x| matches!(x.k, K::NWait { .. } | K::NWaitUntil { .. })) {
+        return "unattributed";
+    }
+    let r = restricted.get_or_insert_with(|| {
+        let mut m = scm::Mode::explore(p);
+        m.spur_yield = true;
+        scm::explore(p, m, SC_MAX_STATES)
+    });
+    if !r.truncated && !r.done.contains(o) {
+        "spurious-return-yields"
+    } else {
+        "unattributed"
+    }
+}
+
 fn eval_c01(job: &Job) -> JobResult {
     let p = &job.program;
     let mut res = JobResult::default();
@@ -126,11 +144,14 @@ fn eval_c01(job: &Job) -> JobResult {
             res.violations.push(viol("unexpected_verdict", sum.verdict.short(), "Ok".into(), sum.message.lines().next().unwrap_or("").to_string(), json!({})));
             return res;
         }
+        let mut restricted: Option<scm::ScResult> = None;
         for o in &sc.done {
             if col.outcomes.contains_key(o) {
                 res.traces_validated += 1;
             } else {
-                res.violations.push(viol("missing_outcome", fmt_outcome(o), "some iteration produces this interleaving outcome".into(), format!("{} iterations, {} outcomes", col.iters, col.outcomes.len()), json!({"loom_outcomes": outs_json(col.outcomes.keys())})));
+                let mut w = json!({"loom_outcomes": outs_json(col.outcomes.keys())});
+                w["attribution"] = json!(d20_attribution(p, o, &mut restricted));
+                res.violations.push(viol("missing_outcome", fmt_outcome(o), "some iteration produces this interleaving outcome".into(), format!("{} iterations, {} outcomes", col.iters, col.outcomes.len()), w));
             }
         }
     } else if bad.len() == 1 && bad.contains("Deadlock") {
@@ -334,11 +355,23 @@ fn eval_conf(job: &Job) -> JobResult {
             res.violations.push(viol(kind, sum.verdict.short(), "Ok".into(), msg, json!({})));
             return res;
         }
+        // attribution (for the known-findings list): is the outcome also missing from the
+        // reference in which a thread yields after its spurious `Notify::wait` return (D20)?
+        let mut restricted: Option<scm::ScResult> = None;
         for o in &sc.done {
             if col.outcomes.contains_key(o) {
                 res.traces_validated += 1;
             } else {
-                res.violations.push(viol("missing_outcome", fmt_outcome(o), "L(P) = R(P)".into(), format!("{} iterations, {} outcomes", col.iters, col.outcomes.len()), json!({"loom_outcomes": outs_json(col.outcomes.keys())})));
+                let mut w = json!({"loom_outcomes": outs_json(col.outcomes.keys())});
+                if p.threads.iter().flatten().any(|x| matches!(x.k, K::NWait { .. } | K::NWaitUntil { .. })) {
+                    let r = restricted.get_or_insert_with(|| {
+                        let mut m = scm::Mode::explore(p);
+                        m.spur_yield = true;
+                        scm::explore(p, m, SC_MAX_STATES)
+                    });
+                    w["attribution"] = json!(if !r.truncated && !r.done.contains(o) { "spurious-return-yields" } else { "unattributed" });
+                }
+                res.violations.push(viol("missing_outcome", fmt_outcome(o), "L(P) = R(P)".into(), format!("{} iterations, {} outcomes", col.iters, col.outcomes.len()), w));
             }
         }
         for o in col.outcomes.keys() {
@@ -399,7 +432,7 @@ fn eval_c04(job: &Job) -> JobResult {
         expected_race = rc.race;
         refinfo = json!({"engine": "rc11", "consistent_executions": rc.consistent, "racy_outcomes": outs_json(rc.racy_outcomes.iter())});
     } else {
-        let sc = scm::explore(p, scm::Mode { hb: true, any_waiter: false, spurious: true }, SC_MAX_STATES);
+        let sc = scm::explore(p, scm::Mode { hb: true, any_waiter: false, spurious: true, spur_yield: false }, SC_MAX_STATES);
         if sc.truncated {
             res.machinery_error = Some("SC machine truncated".into());
             return res;
@@ -619,7 +652,7 @@ pub fn count_preemptions(path: &[Branch]) -> (u32, Option<String>) {
 /// the real number (switches that complete no op are invisible). `None` if the history cannot
 /// be replayed in completion order (multi-step ops).
 pub fn history_preemptions(p: &Program, hist: &crate::accept::History) -> Option<u32> {
-    let mode = scm::Mode { hb: false, any_waiter: true, spurious: true };
+    let mode = scm::Mode { hb: false, any_waiter: true, spurious: true, spur_yield: false };
     let mut s = scm::St::init(p);
     let mut count = 0u32;
     for (k, (t, i, r)) in hist.iter().enumerate() {
